@@ -230,6 +230,8 @@ def gen_cases(rng, tier):
             line = "%s sip:bob@example.org SIP/2.0" % rng.choice(METHODS + ["FOO", "INVITEX"])
         else:
             line = "SIP/2.0 %d %s" % (rng.choice([100, 180, 200, 404, 486, 600, 699]), rng.choice(["OK", "Not Found", "Busy Here", "x"]))
+            if rng.random() < 0.25:
+                line = "SIP/2.0 %d" % rng.choice([100, 200, 299, 499, 699])       # no reason phrase (StatusLine.reason = None)
         hs = []
         for _ in range(rng.randrange(0, 9)):
             hs.append((rng.choice(names), rng.choice(values)))
